@@ -48,6 +48,7 @@ type c36Plan struct {
 	GoIsClient bool      `json:"go_is_client"`
 	Steps      []c36Step `json:"steps"`
 	Seed       uint64    `json:"seed"`
+	Fast       bool      `json:"fast,omitempty"` // fuzzing: no quiescence wait after raw packets
 }
 
 // packet types decode() of the package knows but the channel code has no case
@@ -98,7 +99,10 @@ func genC36Plan(t *rapid.T) *c36Plan {
 			st.Op = "data"
 			st.Tgt, st.T = tgt("dtgt")
 			st.N = []int{0, 1, 5, 100, 5000, 32768}[pick(t, "dlen", 6)]
-			st.S = []string{"ok", "ok", "ok", "ok", "ok", "ok", "ok", "ok", "ok", "ok", "ok", "ok", "short", "long", "overmax", "trunc"}[pick(t, "dvar", 16)]
+			st.S = "ok"
+			if pick(t, "dbad", 10) == 0 {
+				st.S = []string{"short", "long", "overmax", "trunc"}[pick(t, "dvar", 4)]
+			}
 			st.A = []uint32{0, 0, 1, 2, 0xffffffff}[pick(t, "dcode", 5)]
 		case op < 52:
 			st.Op = "adjust"
@@ -140,7 +144,7 @@ func genC36Plan(t *rapid.T) *c36Plan {
 			st.Tgt, st.T = tgt("stgt")
 			st.N = c36StrayTypes[pick(t, "stype", len(c36StrayTypes))]
 			st.A = uint32([]int{1, 2, 15, 16, 17, 18, 40}[pick(t, "scount", 7)])
-		case op < 93:
+		case op < 92 || op == 92 && pick(t, "trunc", 2) == 0:
 			st.Op = "trunc"
 			st.N = []int{80, 81, 82, 90, 91, 92, 93, 94, 95, 96, 97, 98, 99, 100, 192, 193}[pick(t, "ttype", 16)]
 			st.A = uint32(1 + pick(t, "tlen", 8))
@@ -202,6 +206,7 @@ type c36Run struct {
 	readers     map[uint32]*c36Reader
 	lopenRes    []chan c36OpenRes
 	closedLocal bool
+	noQuiesce   bool
 
 	live    []*c36Chan
 	closed  []*c36Chan
@@ -395,6 +400,9 @@ func (r *c36Run) barrier(after string) (alive bool, v string, err error) {
 		return false, v, err
 	}
 	alive = <-got
+	if r.noQuiesce {
+		return alive, "", nil
+	}
 	if !r.watch.Quiesce() {
 		return alive, "", inconclusive("C36: no quiescent state after %s", after)
 	}
@@ -532,6 +540,7 @@ func runC36(p *c36Plan) (string, c36Stats, error) {
 		st := &p.Steps[si]
 		r.stats.steps++
 		mustEnd, mustLive := false, false
+		r.noQuiesce = false
 		what := st.Op
 		if st.Tgt != "" {
 			if _, _, kind := r.resolve(st); kind == "none" {
@@ -993,6 +1002,8 @@ func runC36(p *c36Plan) (string, c36Stats, error) {
 		case "raw":
 			r.send(st.Raw)
 			what = fmt.Sprintf("raw packet type %d of %d bytes", st.Raw[0], len(st.Raw))
+			// nothing is read off the model after a raw packet: the pong alone orders it
+			r.noQuiesce = p.Fast
 		case "lclose":
 			if len(r.live) == 0 {
 				continue
